@@ -122,6 +122,11 @@ def obj_lists():
         [["funcS", "rectB", "rectA"], [False, True, True]],
         [["del", "rectA", "rectB"], [True, True, False]],
         [["rectB", "del", "func"], [True, False, False]],
+        # unregularized objects separated by regularized ones (the reduced matrices must drop non-contiguous index blocks)
+        [["func", "rectA", "funcS"], [False, True, False]],
+        [["funcS", "del", "func", "rectA"], [False, True, False, True]],
+        [["rectA", "func", "rectB", "funcS"], [True, False, True, False]],
+        [["rectB", "rectA", "del"], [False, True, False]],
     ]
     return out
 
